@@ -270,6 +270,38 @@ impl memory::GcManaged for Value {
             _ => {}
         }
     }
+
+    #[cfg(feature = "verif_hooks")]
+    fn verif_edges(&self, sink: &mut memory::verif::EdgeSink) {
+        self.verif_value_edge("Value", sink);
+    }
+}
+
+#[cfg(feature = "verif_hooks")]
+impl Value {
+    pub(crate) fn verif_value_edge(&self, label: &'static str, sink: &mut memory::verif::EdgeSink) {
+        match self {
+            Value::ObjString(inner) => sink.edge(label, inner),
+            Value::ObjStringIter(inner) => sink.edge(label, inner),
+            Value::ObjFunction(inner) => sink.edge(label, inner),
+            Value::ObjNative(inner) => sink.edge(label, inner),
+            Value::ObjClosure(inner) => sink.edge(label, inner),
+            Value::ObjClass(inner) => sink.edge(label, inner),
+            Value::ObjInstance(inner) => sink.edge(label, inner),
+            Value::ObjBoundMethod(inner) => sink.edge(label, inner),
+            Value::ObjBoundNative(inner) => sink.edge(label, inner),
+            Value::ObjTuple(inner) => sink.edge(label, inner),
+            Value::ObjTupleIter(inner) => sink.edge(label, inner),
+            Value::ObjVec(inner) => sink.edge(label, inner),
+            Value::ObjVecIter(inner) => sink.edge(label, inner),
+            Value::ObjRange(inner) => sink.edge(label, inner),
+            Value::ObjRangeIter(inner) => sink.edge(label, inner),
+            Value::ObjHashMap(inner) => sink.edge(label, inner),
+            Value::ObjModule(inner) => sink.edge(label, inner),
+            Value::ObjFiber(inner) => sink.edge(label, inner),
+            _ => {}
+        }
+    }
 }
 
 impl From<f64> for Value {
